@@ -77,7 +77,8 @@ class Prop(common.PropertyCheck):
 
         def cell(kind):
             k = r.randint(0, 4)
-            return ['text %d' % r.randint(100), int(r.randint(-5, 1000)), float(np.round(r.uniform(-1, 1), 6)), np.nan][k]
+            return [['text %d' % r.randint(100), 'tube #%d of 12' % r.randint(9), '# a cell that starts with a hash', 'a;b,c "quoted"'][r.randint(0, 4)],
+                    int(r.randint(-5, 1000)), float(np.round(r.uniform(-1, 1), 6)), np.nan][k]
         cols = ['Name', 'Count', 'Value', 'Mixed']
         rows = [{'ID': i, **{c: cell(c) for c in cols}} for i in ids]
         extra_noid = case['noid'] and n >= 1
@@ -236,6 +237,11 @@ class Prop(common.PropertyCheck):
                 res[sheet + '_added'] = list(out.columns[len(src.columns):])
                 if sheet == 'Samples':
                     res['notes'] = [str(x) for x in out['Analysis Notes']]
+            # the documented result columns are present in both result sheets, whether or not there are rows to fill them
+            for sheet in ('Beads', 'Samples'):
+                missing = [c for c in ('Analysis Notes', 'Number of Events', 'Acquisition Time (s)') if c not in (res.get(sheet + '_added') or [])]
+                if missing and (sheet + '_added') in res:
+                    problems.append('%s sheet: documented result columns %s are missing (columns added: %s)' % (sheet, missing, res[sheet + '_added'][:6]))
             if case['hist'] and 'Histograms' in res['sheets']:
                 h = pd.read_excel(outp, sheet_name='Histograms', engine='openpyxl')
                 res['hist_head'] = [str(c) for c in h.columns[:3]]
